@@ -143,7 +143,7 @@ pub fn view_mut<const N: usize, const P: u32, S: Src>(s: &mut S) {
                 buf.front_mut()
             }
             4 => {
-                s.assume(p + 1 == len || (len == 0 && p == 0));
+                s.assume((len > 0 && p == len - 1) || (len == 0 && p == 0));
                 buf.back_mut()
             }
             5 => {
